@@ -252,17 +252,29 @@ func c18Socks(t *testing.T, c c18SCase, res map[string]any) {
 			ok, why = false, s
 		}
 	}
+	// gate clause, on the boundary log alone and for every client (also one that keeps sending after a
+	// refusal such as 05 FF): with AuthFunc configured, no HyClient.TCP / HyClient.UDP call unless an
+	// AuthFunc call on this connection has returned true before it
 	accepted := false
+	refused := false // the server has answered "no acceptable methods" (05 FF) or USER/PASS failure (01 01)
 	closes := 0
 	for _, e := range ev {
 		switch e["t"] {
+		case "reply":
+			if h, _ := e["hex"].(string); h == "05ff" || h == "0101" {
+				refused = true
+			}
 		case "auth":
 			if e["ok"] == true {
 				accepted = true
 			}
 		case "tcp", "udp":
 			if c.Auth && !accepted {
-				fail("upstream " + e["t"].(string) + " opened before any accepted USER/PASS")
+				if refused {
+					fail("upstream " + e["t"].(string) + " opened for a client the server had just refused (05 FF / 01 01) and that never presented accepted credentials")
+				} else {
+					fail("upstream " + e["t"].(string) + " opened before any accepted USER/PASS")
+				}
 			}
 		case "close":
 			closes++
